@@ -41,7 +41,7 @@ build() { # $1 = binary path, $2... extra flags
 }
 
 BIN="$WORK/vcheck.$$"
-trap 'rm -rf "$WORK/go.$$.mod" "$WORK/go.$$.sum" "$BIN" "$WORK/ov.$$" "$WORK/ovgen.$$" "$WORK/ovgen.$$.log"' EXIT
+trap 'rm -rf "$WORK/go.$$.mod" "$WORK/go.$$.sum" "$BIN" "$WORK/ov.$$" "$WORK/ovgen.$$" "$WORK/ovgen.$$.log" "$WORK/racepass.$$"' EXIT
 case "$ID" in
   build)
     build "$BIN"
@@ -53,6 +53,12 @@ esac
 if needs_overlay "$ID"; then
   prepare_overlay
   build "$BIN" "${OVFLAGS[@]}"
+  if [ "$ID" = C12 ]; then
+    # auxiliary free-running pass: the same scenario bodies, real sync, Go's race detector
+    ( cd harness && go124 build -race -modfile="$WORK/go.$$.mod" -o "$WORK/racepass.$$" ./cmd/racepass ) 2> "$WORK/build.$$.log" || { echo "HARNESS-ERROR: cannot build the -race pass:" >&2; head -20 "$WORK/build.$$.log" >&2; exit 2; }
+    rm -f "$WORK/build.$$.log"
+    export VERIF_RACEPASS_BIN="$WORK/racepass.$$"
+  fi
 else
   build "$BIN"
 fi
